@@ -25,6 +25,23 @@ var kvfuncs = map[string]func(int, int) bool{
 	"eq_false": func(a, b int) bool { return false },
 }
 
+// callbacks on the live size of the map being filtered (Coq: nat -> bool)
+type liveFunc struct {
+	f   func(int) bool
+	coq string
+}
+
+var liveFuncs = map[string]liveFunc{
+	"live_gt0":  {func(n int) bool { return n > 0 }, "(fun n => Nat.ltb 0 n)"},
+	"live_gt1":  {func(n int) bool { return n > 1 }, "(fun n => Nat.ltb 1 n)"},
+	"live_gt2":  {func(n int) bool { return n > 2 }, "(fun n => Nat.ltb 2 n)"},
+	"live_gt4":  {func(n int) bool { return n > 4 }, "(fun n => Nat.ltb 4 n)"},
+	"live_even": {func(n int) bool { return n%2 == 0 }, "Nat.even"},
+	"live_odd":  {func(n int) bool { return n%2 == 1 }, "Nat.odd"},
+	"live_ne3":  {func(n int) bool { return n != 3 }, "(fun n => negb (Nat.eqb n 3))"},
+}
+var liveNames = []string{"live_gt0", "live_gt1", "live_gt2", "live_gt4", "live_even", "live_odd", "live_ne3"}
+
 var bmWrapperNames = []string{"UnsafeAny", "SafeAny", "UnsafeComparable", "SafeComparable"}
 
 type mrecv struct {
@@ -134,6 +151,9 @@ func (o mop) coq() string {
 	case "CopyByMap", "CopyByBMap":
 		return fmt.Sprintf("OCopy %s %s", b(byB), argT)
 	case "DeleteFunc":
+		if g, ok := liveFuncs[o.Fn]; ok {
+			return "ODeleteFuncLive " + g.coq
+		}
 		return "ODeleteFunc " + o.Fn
 	case "Marshal":
 		return "OMarshal"
@@ -154,6 +174,9 @@ func (o mop) coq() string {
 	case "ContainsValue":
 		return "OContainsValue " + zi(o.V)
 	case "ForEach":
+		if o.Fn == "live" {
+			return "OForEachLive"
+		}
 		return "OForEach"
 	case "Get":
 		return "OGet " + zi(o.K)
@@ -235,6 +258,23 @@ func execMap(o mop, r mrecv) string {
 		a.CopyByBMap(dst)
 		return mo(dst.ToMetaMap())
 	case "DeleteFunc":
+		if g, ok := liveFuncs[o.Fn]; ok {
+			// the callback looks at the LIVE map (through ToMetaMap) and records the size it sees
+			seen := []int{}
+			visited := map[int]int{}
+			a.DeleteFunc(func(k, v int) bool {
+				visited[k]++
+				n := len(a.ToMetaMap())
+				seen = append(seen, n)
+				return g.f(n)
+			})
+			for _, c := range visited {
+				if c > 1 {
+					return "BErr" // a key was handed to the callback twice
+				}
+			}
+			return "BList " + zl(seen)
+		}
 		a.DeleteFunc(fn)
 	case "Marshal":
 		bs, err := a.Marshal()
@@ -258,6 +298,11 @@ func execMap(o mop, r mrecv) string {
 	case "ContainsValue":
 		return bo(a.ContainsValue(o.V))
 	case "ForEach":
+		if o.Fn == "live" {
+			sizes := []int{}
+			a.ForEach(func(k, v int) { sizes = append(sizes, len(a.ToMetaMap())) })
+			return "BList " + zl(sizes)
+		}
 		seen := map[int]int{}
 		n := 0
 		a.ForEach(func(k, v int) { seen[k] = v; n++ })
